@@ -162,4 +162,6 @@ def exotic_shapes() -> list[Any]:
         # single-child fields annotated with exactly a collection-like / iterable node class
         R("VHolder", body=R("VColl", items=(L(),)), it=None, many=(R("VColl"),)),
         R("VReq", child=R("VHolder", body=R("VColl"), it=R("VIter", items=(L(),)), many=())),
+        # a class and its subclass side by side among the descendants
+        R("VMany", items=(L(), R("VSubLeaf"), R("VReq", child=R("VSubLeaf")), L())),
     )]
